@@ -266,23 +266,24 @@ XFamSeq == [f \in 1..Len(XFams) |-> SetToSeq({s \in (-20..20) \X (-20..20) : Ell
 XMkArc(f, c, a, b, sw, lgHalf) ==
     LET g0 == Ar(c, XFams[f].rad, XFams[f].rot, 0, sw, PAdd(c, b)) t == ArcTurn(PAdd(c, a), g0)
     IN [g0 EXCEPT !.lg = IF t = 0 THEN lgHalf ELSE IF (sw = 1) = (t > 0) THEN 0 ELSE 1]
-ArcSet == UNION {LET pts == XFamSeq[f] r == XFamR(f) c0 == <<r, r>> IN
+\* (ArcSet and ChordSet take a parameter so that TLC does not evaluate them eagerly as constants in every mode)
+ArcSet(fam) == UNION {LET pts == XFamSeq[f] r == XFamR(f) c0 == <<r, r>> IN
                    {<<Ctr(PAdd(c0, pts[x[1]]), <<XMkArc(f, c0, pts[x[1]], pts[x[2]], x[3], x[4])>>, FALSE)>> :
                        x \in {y \in (1..Len(pts)) \X (1..Len(pts)) \X {0, 1} \X {0, 1} :
-                                 y[1] # y[2] /\ (y[4] = 0 \/ ArcTurn(PAdd(c0, pts[y[1]]), XMkArc(f, c0, pts[y[1]], pts[y[2]], y[3], 0)) = 0)}} : f \in Fam}
+                                 y[1] # y[2] /\ (y[4] = 0 \/ ArcTurn(PAdd(c0, pts[y[1]]), XMkArc(f, c0, pts[y[1]], pts[y[2]], y[3], 0)) = 0)}} : f \in fam}
 \* an arc of the eight-point rotated families (centre (20,20)) + a second contour of CurveGen on the lattice 0..10 scaled by 4
 RotMix(b) == LET rv == Expand(b, 0) f == 13 + (rv[1] % 4) pts == XFamSeq[f] np == Len(pts) c0 == <<20, 20>>
                  ia == rv[2] % np ib == (ia + 1 + (rv[3] % (np - 1))) % np
              IN << Ctr(PAdd(c0, pts[ia + 1]), <<XMkArc(f, c0, pts[ia + 1], pts[ib + 1], rv[4] % 2, rv[5] % 2)>>, rv[6] % 2 = 0),
                    ScaleCtr(4, DecodeCtr(Expand(b, 1), 10, Kinds \cup {"L"}, Fam)) >>
 \* chord arcs: radii 1..N, chord length 1..2N+2 (longer than the diameter: radii are scaled), both travel directions, all flags
-ChordSet == {LET w == x[3] x1 == IF x[4] = 1 THEN 1 ELSE 1 + w x2 == IF x[4] = 1 THEN 1 + w ELSE 1
+ChordSet(n) == {LET w == x[3] x1 == IF x[4] = 1 THEN 1 ELSE 1 + w x2 == IF x[4] = 1 THEN 1 + w ELSE 1
              IN <<Ctr(<<x1, 2>>, <<ChordArc(<<x[1], x[2]>>, x[5], x[6], <<x2, 2>>)>>, FALSE)>> :
-                x \in {y \in (1..N) \X (1..N) \X (1..(2 * N + 2)) \X {0, 1} \X {0, 1} \X {0, 1} : y[3] <= 2 * y[1] + 2}}
+                x \in {y \in (1..n) \X (1..n) \X (1..(2 * n + 2)) \X {0, 1} \X {0, 1} \X {0, 1} : y[3] <= 2 * y[1] + 2}}
 PathChoice ==
     CASE Mode = "quads"  -> {<<Ctr(x[1], <<Qd(x[2], x[3])>>, FALSE)>> : x \in {y \in Pt \X Pt \X Pt : ~(y[1] = y[2] /\ y[2] = y[3])}}
-      [] Mode = "arcs"   -> ArcSet
-      [] Mode = "chords" -> ChordSet
+      [] Mode = "arcs"   -> ArcSet(Fam)
+      [] Mode = "chords" -> ChordSet(N)
       [] Mode = "cubics" -> {<<Ctr(<<v[1], v[2]>>, <<Cb(<<v[3], v[4]>>, <<v[5], v[6]>>, <<v[7], v[8]>>)>>, v[9] % 2 = 1)>> : v \in RandomSubset(Num, [1..9 -> 0..N])}
       [] Mode = "rotmix" -> {RotMix(b) : b \in RandomSubset(Num, BaseVecs)}
       [] Mode = "curves" -> IF NC = 1 THEN {<<DecodeCtr(Expand(b, 0), N, Kinds, Fam)>> : b \in RandomSubset(Num, BaseVecs)}
